@@ -164,6 +164,9 @@ class Machine:
             r = self.intercept(self, c, a, tt, g)
             if r is not NOT:
                 return r
+        r = self._fmt_model(c, a, raw, tt, g, env)
+        if r is not NOT:
+            return r
         if c.endswith("String::push") or c.endswith("String::push_str") or c.endswith("String::insert") or c.endswith("String::insert_str"):
             tgt, cur = raw[0], a[0]
             if isinstance(tgt, absint.Ptr) and isinstance(cur, str):
@@ -181,6 +184,17 @@ class Machine:
         if r is not NOT:
             return r
         h = self.fb.by_path(c, self.crate) if c else None
+        if h is None and c and (tt.get("fn") or {}).get("resolved") is None and raw:
+            # a trait method called on a generic receiver: dispatch on the abstract value's type
+            recv = a[0]
+            adt = getattr(recv, "adt", None) if isinstance(recv, Enum) else None
+            if adt:
+                meth = c.rsplit("::", 1)[-1]
+                trait = c.rsplit("::", 1)[0]
+                cands = [f for f in self.fb.all(self.crate) if f.name.endswith("::" + meth) and f.self_ty and
+                         mir.norm(f.self_ty).split("<")[0] == adt and (f.trait is None or mir.norm(f.trait).split("<")[0] == trait or trait.endswith(mir.norm(f.trait).split("<")[0]))]
+                if len(cands) == 1:
+                    h = cands[0]
         if h is not None and self.inline(c):
             return self.run(h, raw, generics=(tt.get("fn") or {}).get("generics"))
         if tt.get("fn") is None and a:                      # call through a fn pointer / closure value held in a local
@@ -189,11 +203,115 @@ class Machine:
                 return self.call_value(fv, a)
         return None
 
+    # ------------------------------------------------------------------ formatting
+    def _fmt_model(self, c, a, raw, tt, g, env):
+        end = c.rsplit("::", 1)[-1]
+        if "fmt::rt::Argument::new_" in c:
+            gens = (tt.get("fn") or {}).get("generics") or []
+            ty = next((x for x in gens if not x.startswith("'")), "")
+            return FmtArg(end.replace("new_", ""), a[0] if a else UNKNOWN, ty.lstrip("&"))
+        if c.endswith("fmt::Arguments::new") or c.endswith("fmt::Arguments::new_v1"):
+            tmpl = a[0] if a else None
+            if isinstance(tmpl, Bytes):
+                pieces = mir.fmt_template(tmpl.bs)
+            else:
+                # the template may reach us through a reference local: trace the constant statically
+                cst = mir.trace_const(g, tt["args"][0])
+                pieces = mir.fmt_template(cst["bytes"]) if cst and "bytes" in cst else None
+            if pieces is None:
+                return UNKNOWN
+            args = a[1] if len(a) > 1 and isinstance(a[1], list) else []
+            parts = []
+            for p in pieces:
+                if isinstance(p, str):
+                    parts.append(p)
+                else:
+                    parts.append(args[p[1]] if p[1] is not None and p[1] < len(args) else UNKNOWN)
+            return FmtArguments(parts)
+        if end in ("from_str", "from_str_nonconst", "new_const") and "fmt::Arguments" in c:
+            v = a[0] if a else None
+            if isinstance(v, list) and len(v) == 1:
+                v = v[0]
+            return FmtArguments([v]) if isinstance(v, str) else UNKNOWN
+        if c in ("alloc::fmt::format", "std::fmt::format") or c.endswith("fmt::format") or c.endswith("fmt::format::format_inner"):
+            if isinstance(a[0], FmtArguments):
+                return self.render(a[0])
+            return UNKNOWN
+        if c in ("itertools::join", "itertools::Itertools::join") or c.endswith("Itertools::join"):
+            items = a[0].rest() if isinstance(a[0], Iter) else (a[0] if isinstance(a[0], list) else None)
+            sep = a[1] if len(a) > 1 else ""
+            if items is None or not isinstance(sep, str):
+                return UNKNOWN
+            parts = []
+            for i, it in enumerate(items):
+                if i:
+                    parts.append(sep)
+                parts.append(it if isinstance(it, (str, Text)) else Hole(it))
+            return Text(parts).flat()
+        if c.endswith("Formatter::write_fmt") or (end == "write_fmt" and ("io::Write" in c or "fmt::Write" in c)):
+            if len(a) > 1 and isinstance(a[1], FmtArguments):
+                txt = self.render(a[1], sink=a[0])
+                self.events.append(("write", a[0], txt))
+                if isinstance(a[0], Sink):
+                    a[0].parts.append(txt)
+                return ok([])
+            return UNKNOWN
+        if c.endswith("Formatter::write_str") or c.endswith("Formatter::write_char") or (end in ("write_str", "write_char") and "fmt::Write" in c):
+            piece = a[1] if len(a) > 1 else None
+            piece = chr(piece) if isinstance(piece, int) and not isinstance(piece, bool) else piece
+            self.events.append(("write", a[0], piece))
+            if isinstance(a[0], Sink):
+                a[0].parts.append(piece)
+            return ok([])
+        if c.endswith("Formatter::pad") and len(a) > 1:
+            self.events.append(("write", a[0], a[1]))
+            if isinstance(a[0], Sink):
+                a[0].parts.append(a[1])
+            return ok([])
+        return NOT
+
+    def display(self, value, ty, kind="display"):
+        """text of `value` as its Display / Debug impl in the crate prints it: Text with holes for opaque parts"""
+        if isinstance(value, Text):
+            return value
+        if isinstance(value, (str,)):
+            return value if kind == "display" else repr(value)
+        if isinstance(value, bool):
+            return "true" if value else "false"
+        if isinstance(value, int):
+            if ty == "char":
+                return chr(value)
+            return str(value)
+        base = mir.norm(ty).split("<")[0] if ty else ""
+        if isinstance(value, Enum) and getattr(value, "adt", None):
+            base = value.adt              # the abstract value knows its type better than a generic `T`
+        trait = "std::fmt::Display" if kind == "display" else "std::fmt::Debug"
+        cands = [f for f in self.fb.all(self.crate) if f.trait and f.name.endswith("::fmt") and trait in f.name and f.self_ty and
+                 base and (mir.norm(f.self_ty).split("<")[0] == base or mir.norm(f.self_ty).split("<")[0].endswith("::" + base.rsplit("::", 1)[-1]))]
+        if base.startswith("std::boxed::Box") and "<" in ty:
+            return self.display(value, ty[ty.index("<") + 1:-1], kind)
+        if len(cands) == 1 and len(self.stack) < 20:
+            sink = Sink()
+            self.run(cands[0], [value, sink])
+            return Text(sink.parts).flat()
+        return Text([Hole(value, ty, kind)]).flat()
+
+    def render(self, fa, sink=None):
+        parts = []
+        for p in fa.parts:
+            if isinstance(p, FmtArg):
+                parts.append(self.display(p.value, p.ty, p.kind))
+            else:
+                parts.append(p)
+        return Text(parts).flat()
+
     def _operand(self, env, o):
         if o["k"] == "const":
             cc = o["c"]
             if "fn" in cc:
                 return FnItem(mir.norm(cc["fn"].get("resolved") or cc["fn"]["def"]))
+            if cc.get("bytes") is not None and cc.get("val") is None:
+                return Bytes(cc["bytes"])
             pb = cc.get("promoted_body")
             if pb is not None and cc.get("val") is None:
                 try:
@@ -228,6 +346,8 @@ class Machine:
         if m("Option::as_ref", "Option<T>::as_ref", "Option::as_mut", "Option<T>::as_mut", "Option::as_deref", "Option<T>::as_deref",
              "Option::cloned", "Option<T>::cloned", "Option<&T>::cloned", "Option::copied", "Option<&T>::copied", "Option<T>::copied",
              "Option::as_deref_mut"):
+            return a0
+        if m("std::hint::must_use", "std::convert::identity", "std::hint::black_box"):
             return a0
         if m("std::mem::drop", "std::ops::Drop>::drop"):
             return []
@@ -610,6 +730,62 @@ class Machine:
                 return Map((x, True) for x in items)
             return Map((x[0], x[1]) for x in items if isinstance(x, list) and len(x) == 2)
         return list(items)
+
+
+class Bytes:
+    def __init__(self, bs):
+        self.bs = bs
+
+
+class FmtArg:
+    def __init__(self, kind, value, ty):
+        self.kind, self.value, self.ty = kind, value, ty
+
+
+class FmtArguments:
+    def __init__(self, parts):
+        self.parts = parts
+
+
+class Sink:
+    """a Formatter / writer that collects what is written to it"""
+    def __init__(self):
+        self.parts = []
+
+    def text(self):
+        return Text(self.parts).flat()
+
+
+class Hole:
+    """a part of a printed text that is the rendering of an opaque value"""
+    def __init__(self, value, ty="", kind="display"):
+        self.value, self.ty, self.kind = value, ty, kind
+
+    def __repr__(self):
+        return "{%r}" % (self.value,)
+
+
+class Text:
+    """printed text with holes; .flat() gives a plain str when there are no holes"""
+    def __init__(self, parts):
+        self.parts = []
+        for p in parts:
+            if isinstance(p, Text):
+                self.parts += p.parts
+            elif isinstance(p, str) and self.parts and isinstance(self.parts[-1], str):
+                self.parts[-1] += p
+            elif isinstance(p, (str, Hole)):
+                self.parts.append(p)
+            else:
+                self.parts.append(Hole(p))
+
+    def flat(self):
+        if all(isinstance(p, str) for p in self.parts):
+            return "".join(self.parts)
+        return self
+
+    def __repr__(self):
+        return "Text(%s)" % "".join(p if isinstance(p, str) else repr(p) for p in self.parts)
 
 
 class ListSlot(absint.Ptr):
